@@ -14,6 +14,7 @@ import (
 	"github.com/Trendyol/go-dcp/couchbase"
 	"github.com/Trendyol/go-dcp/helpers"
 	"github.com/Trendyol/go-dcp/logger"
+	"github.com/Trendyol/go-dcp/membership"
 	"github.com/Trendyol/go-dcp/stream"
 	"github.com/asaskevich/EventBus"
 	"github.com/sirupsen/logrus"
@@ -129,8 +130,61 @@ func chunk(in, out string, allMembersUpTo int) {
 		w.Write(b)
 		w.WriteByte('\n')
 	}
-	b, _ := json.Marshal(map[string]any{"summary": true, "pairs": pairs, "get_calls": gets, "spec_mismatches": mism, "first_mismatch": firstMis})
+	// purity: ONE long-lived discovery object (dynamic membership, as in a running client) must give, for every
+	// membership it is told, exactly what a fresh computation gives - whatever group sizes it has served before
+	histMism, histCalls := 0, 0
+	for _, n := range []int{1, 2, 3, 7, 8, 16, 33, 64, 128, 1024} {
+		hbus := EventBus.New()
+		cfg := &config.Dcp{}
+		cfg.Dcp.Group.Membership.Type = "dynamic"
+		vd := stream.NewVBucketDiscovery(nil, cfg, n, hbus)
+		ids := make([]uint16, n)
+		for i := range ids {
+			ids[i] = uint16(i)
+		}
+		var sizes []int
+		for t := 1; t <= n && t <= 9; t++ {
+			sizes = append(sizes, t)
+		}
+		for t := 9; t >= 1; t-- {
+			if t <= n {
+				sizes = append(sizes, t, (t*7)%n+1)
+			}
+		}
+		for _, t := range sizes {
+			if t > n {
+				t = n
+			}
+			for _, m := range []int{1, t, (t + 1) / 2} {
+				hbus.Publish(helpers.MembershipChangedBusEventName, &membership.Model{MemberNumber: m, TotalMembers: t})
+				hbus.WaitAsync()
+				got := vd.Get()
+				want := helpers.ChunkSlice[uint16](ids, t)[m-1]
+				histCalls++
+				same := len(got) == len(want)
+				for k := 0; same && k < len(got); k++ {
+					same = got[k] == want[k]
+				}
+				if !same {
+					histMism++
+					if firstMis == "" {
+						firstMis = fmt.Sprintf("history: n=%d after other group sizes: member %d of %d gets %d vBuckets from %v, a fresh computation %d from %v",
+							n, m, t, len(got), first(got), len(want), first(want))
+					}
+				}
+			}
+		}
+	}
+	b, _ := json.Marshal(map[string]any{"summary": true, "pairs": pairs, "get_calls": gets, "spec_mismatches": mism, "first_mismatch": firstMis,
+		"history_calls": histCalls, "history_mismatches": histMism})
 	fmt.Println(string(b))
+}
+
+func first(l []uint16) int {
+	if len(l) == 0 {
+		return -1
+	}
+	return int(l[0])
 }
 
 // version: table lines "M m p b  M m p b  rendering-of-a"; plus malformed strings
